@@ -55,7 +55,7 @@ func externEffects(name string) map[string]Sort {
 
 // externPure: functions without effect on the modelled state.
 func externPure(name string) bool {
-	for _, p := range []string{"strings.", "strconv.", "unicode.", "unicode/utf8.", "fmt.Sprintf", "fmt.Errorf", "fmt.Sprint", "errors.New", "os.Lstat", "os.Open", "os.Getpid", "os.Environ",
+	for _, p := range []string{"strings.", "strconv.", "unicode.", "unicode/utf8.", "fmt.", "errors.New", "os.Lstat", "os.Open", "os.Getpid", "os.Environ",
 		"os.(*File).", "regexp.", "bytes.", "bufio.New", "sync.(*Mutex).", "sync/atomic.Load", "sync/atomic.(*Value).Load", "path/filepath.", "os/user.", "error.Error", "runtime.", "io.", "sort.", "math."} {
 		if strings.HasPrefix(name, p) {
 			return true
